@@ -1,6 +1,23 @@
 # per-property claim texts used by mk_manifest.py
 NA = {}
 CLAIMS = {
+ 'C02': {
+  'technique': 'Coq proofs over R of the clipping bound, neighbouring-batch sensitivity and ghost-norm identities on the generated clip expression; neighbouring-batch runs on the real optimizers',
+  'text': ('For the clip factor expression generated from the optimizers (flat, adaptive, per-layer, ghost coefficient: min(1, C/(n+1e-6))): ||clip(g)|| <= C, '
+           'flat/adaptive sensitivity (removing any example from any batch changes the pre-noise sum by a vector of joint norm <= C), per-layer sensitivity (per tensor <= C_k, '
+           'jointly <= root-sum-square), invariance under physical splitting, and the ghost-clipping norm identities for nn.Linear (2-D, 3-D weight, 3-D bias) for ALL extents '
+           'are theorems over the reals. The ghost formulas and the clip factor are tied to the code by pins + integer/binary64 correspondence runs; the property itself is '
+           'tested on real GradSampleModules with gradient scales 1e-4..1e3. Partial: per-sample gradients being a function of the sample alone is C01/C15; float rounding inside '
+           'tensor kernels is not modelled.'),
+ },
+ 'C03': {
+  'technique': 'Coq stage-by-stage theorems on the generated optimizer code plus numeric reading over R; one-step closed-form runs on the real optimizers',
+  'text': ('clip stage (contributions tagged with the norm in force), noise stage (summed + z at std sigma*C), scale stage (divide by expected_batch_size x accumulated '
+           'iterations for mean, nothing for sum) are theorems about the code generated from the four optimizer classes; the release evaluates to '
+           '(sum_i min(1,C/(|g_i|+1e-6)) g_i + z)/B, unclipped samples pass through, zero noise + huge C gives the plain averaged gradient (over R); get_optimizer_class equals '
+           'the documented table on its whole (finite) domain. One real step of each optimizer class is compared with the closed form using per-sample gradients from autograd on '
+           'single samples and the recorded noise; the generated clip factor and int(N*(1/L)) are evaluated on binary64 inside Coq against torch / CPython.'),
+ },
  'C10': {
   'technique': 'Coq simulation proof on generated optimizer + sampler code (array_split partition, split run refines unsplit run); engine-level differential runs',
   'text': ('array_split_partition and physical_batches_bounded (every physical batch non-empty, <= max, concatenation = logical batch) for all batch sizes and max sizes; '
